@@ -230,8 +230,17 @@ def check_whole_axis(ctx, fi, rule='R-TILE/whole-axis'):
         if not hdr:
             continue
         t = ex.expand(loop.iter.args[0], hdr[0].id)
-        if not (isinstance(t, tuple) and t and t[0] == 'binop'
-                and t[1] == 'FloorDiv'):
+        # N // S, possibly inside max(1, .) / min(., .) / int(.)
+        core = t
+        while isinstance(core, tuple) and core and core[0] == 'call' \
+                and core[1][0] == 'name' and core[1][1] in (
+                    'max', 'min', 'int') and core[2]:
+            inner = [a for a in core[2] if a[0] != 'const']
+            if len(inner) != 1:
+                break
+            core = inner[0]
+        if not (isinstance(core, tuple) and core and core[0] == 'binop'
+                and core[1] == 'FloorDiv'):
             continue
         # the body multiplies the loop variable by something and uses it
         # as a slice bound
